@@ -451,6 +451,7 @@ func randDelivery(r *core.Rand, n int, faultChance int) *simio.Delivery {
 	}
 	d.EOFWithData = r.Chance(1, 4)
 	d.Scribble = r.Chance(1, 6)
+	d.Sniff = r.Chance(1, 12)
 	if faultChance > 0 && r.Chance(faultChance, 100) {
 		d.FaultAt = r.Range(0, n)
 		d.FaultWithData = r.Chance(1, 2)
